@@ -191,6 +191,12 @@ def run(ctx):
             for s in res["inconclusive"]:
                 ctx.note_inconclusive(s)
     ctx.extra["edges_replayed"] = edges_total
+    # ---- caller-owned buffers travelling through several calls (SpanBuf.tla; checks/c04_buf.py)
+    import importlib.util
+    bspec = importlib.util.spec_from_file_location("c04_buf", os.path.join(os.path.dirname(os.path.abspath(__file__)), "c04_buf.py"))
+    bmod = importlib.util.module_from_spec(bspec)
+    bspec.loader.exec_module(bmod)
+    bmod.run(ctx, binp)
     # ---- code -> spec
     n = 4000 if thorough else 400
     trace = os.path.join(ctx.work, "trace.ndjson")
